@@ -83,10 +83,13 @@ func (c25) Generate(r *engine.Rand, index int, tier string) *engine.Scenario {
 		if r.Bool() {
 			shape = 1 + r.Intn(2)
 		} else if r.Bool() {
-			shape = freeShapeClock + r.Intn(2) // cartridges with the clock, programs that latch and read it
+			shape = freeShapeClock + r.Intn(4) // cartridges with the clock, programs that latch and read it
 		}
 	}
 	sc.SetP("n", int64(n))
+	if r.Chance(1, 3) {
+		sc.SetP("samepath", 1) // every instance's ROM file has the same name (contents differ)
+	}
 	for i := 0; i < n; i++ {
 		w := randomWorkload(r)
 		w.Shape = shape
@@ -183,6 +186,7 @@ type c25inst struct {
 
 func c25new(sc *engine.Scenario, i int, res *engine.Result) *c25inst {
 	w := loadWorkload(sc, fmt.Sprintf("i%d.", i))
+	w.Prop = "C25"
 	m := newFree(w, 0, res)
 	if m == nil {
 		return nil
